@@ -1,42 +1,32 @@
 package main
 
 // C19: the extension → mimetype table of cmd/minify (`var extMap = map[string]string{…}` in main.go),
-// regenerated as Lean data.  Fails when the literal no longer has that shape.
+// regenerated as Lean data (keys and values through the type checker: literals, constants, constant expressions).
+// Fails when the variable is no longer initialised with a map literal of statically known strings.
 
 import (
 	"fmt"
-	"go/ast"
 	"sort"
-	"strconv"
 	"strings"
 )
 
 func init() {
 	gen("CliExtMap", func(r *Repo) (string, error) {
-		e, err := r.FindVar("cmd/minify", "extMap")
+		e, err := r.TEnv()
 		if err != nil {
 			return "", err
 		}
-		lit, ok := e.(*ast.CompositeLit)
-		if !ok {
-			return "", fmt.Errorf("cmd/minify extMap is not a composite literal")
+		kvs, p, _, err := e.MapVar("cmd/minify", "extMap")
+		if err != nil {
+			return "", err
 		}
 		type kv struct{ k, v string }
 		var rows []kv
-		for _, el := range lit.Elts {
-			p, ok := el.(*ast.KeyValueExpr)
-			if !ok {
-				return "", fmt.Errorf("cmd/minify extMap: element is not key: value")
-			}
-			kl, ok1 := p.Key.(*ast.BasicLit)
-			vl, ok2 := p.Value.(*ast.BasicLit)
-			if !ok1 || !ok2 {
-				return "", fmt.Errorf("cmd/minify extMap: non-literal key or value")
-			}
-			k, e1 := strconv.Unquote(kl.Value)
-			v, e2 := strconv.Unquote(vl.Value)
+		for _, el := range kvs {
+			k, e1 := e.Bytes(p, el.Key)
+			v, e2 := e.Bytes(p, el.Val)
 			if e1 != nil || e2 != nil {
-				return "", fmt.Errorf("cmd/minify extMap: cannot unquote %s: %s", kl.Value, vl.Value)
+				return "", fmt.Errorf("cmd/minify extMap: key or value is not a statically known string (%v %v)", e1, e2)
 			}
 			rows = append(rows, kv{k, v})
 		}
